@@ -13,16 +13,19 @@ Record run := mkRun {
   r_ntok : N;                       (* number of distinct token values on the events of this start *)
   r_disk : disk;                    (* token file, token.tmp, kv items after the start *)
   r_pub : list (item * bytes);      (* public projection of each stored item (public key / certificate DER) *)
-  r_shown : list bytes;             (* per instance, in the order of r_insts: what a client of THAT instance was shown in a
-                                       real handshake (SSH host key, TLS leaf certificate, agent public key); [] = nothing *)
+  r_shown : list (list (N * bytes));
+                                    (* per instance, in the order of r_insts, per host key algorithm / certificate type the
+                                       instance ADVERTISES (1 = the RSA key / RSA certificate / agent key): what a client
+                                       restricted to that algorithm was shown in a real handshake; [] = nothing *)
   r_bad : list item;                (* stored items the real libraries reject (parse, Validate, X509KeyPair with the stored key) *)
   r_lock : bool;                    (* INPUT: the store's directory lock is held by another process while this start is
                                        attempted (an earlier start still running, or a foreign flock) *)
   r_failed : bool;                  (* the process ended without completing the start (all other observations are void) *)
   r_chans : list N;                 (* configured capture channels *)
   r_filters : list filt;            (* the [[filter]] sections, in order *)
-  r_deliv : list (N * list (N * bytes))
+  r_deliv : list (N * list (N * bytes));
                                     (* per probe event category: (channel, token field at arrival) in arrival order *)
+  r_spell : spelling                (* INPUT: how the data directory was spelled for this start *)
 }.
 
 (* services enabled: one load-or-generate call per instance *)
@@ -32,7 +35,7 @@ Definition r_cfg (r : run) : list svc := map (fun i => kind_svc (i_kind i)) (r_i
 Definition stored_of (r : run) (k : ikind) : bytes :=
   match kv_get (r_pub r) (shown_item k) with Some b => b | None => [] end.
 
-Fixpoint list_eqb {A} (e : A -> A -> bool) (a b : list A) : bool :=
+Fixpoint list_eqb {A B} (e : A -> B -> bool) (a : list A) (b : list B) : bool :=
   match a, b with
   | [], [] => true
   | x :: a', y :: b' => e x y && list_eqb e a' b'
@@ -42,9 +45,18 @@ Fixpoint list_eqb {A} (e : A -> A -> bool) (a b : list A) : bool :=
 Definition has_opkey (i : inst) : bool :=
   match i_kind i, i_opt i with KAuth, Some _ => true | _, _ => false end.
 
-(* (item, value shown) of the instances that carry no operator key *)
-Definition r_seen (r : run) : list (item * bytes) :=
-  flat_map (fun ib => if has_opkey (fst ib) then [] else [(shown_item (i_kind (fst ib)), snd ib)])
+Definition pair_eqb (a b : N * bytes) : bool := (fst a =? fst b)%N && eqb_bytes (snd a) (snd b).
+
+Fixpoint nget (m : list (N * bytes)) (k : N) : option bytes :=
+  match m with
+  | [] => None
+  | (j, v) :: r => if (j =? k)%N then Some v else nget r k
+  end.
+
+(* (100 * item + algorithm, value shown) of the instances that carry no operator key *)
+Definition r_seen (r : run) : list (N * bytes) :=
+  flat_map (fun ib => if has_opkey (fst ib) then []
+                      else map (fun av => (100 * item_code (shown_item (i_kind (fst ib))) + fst av, snd av)%N) (snd ib))
            (combine (r_insts r) (r_shown r)).
 
 Record case := mkCase {
@@ -53,7 +65,10 @@ Record case := mkCase {
                                        the repair) can leave; informational: every case is judged alike *)
   c_disk0 : disk;
   c_bad0 : list item;
-  c_runs : list run
+  c_runs : list run;
+  c_home : list N;                  (* components of the home directory, of the working directory of the starts and of the *)
+  c_cwd : list N;                   (* data directory (names numbered per case) *)
+  c_dir : list N
 }.
 
 Definition obytes_eqb (a b : option bytes) : bool :=
@@ -92,7 +107,7 @@ Fixpoint agrees (d : disk) (rs : list run) : bool :=
                                      (deliver (r_token r) [] (wire (r_chans r) (r_filters r)) (fst cd)) (snd cd))
                  (r_deliv r)
       (* every instance presents what the constructors' cells hold *)
-      && list_eqb eqb_bytes (presented (stored_of r) (r_insts r)) (r_shown r)
+      && list_eqb (list_eqb pair_eqb) (presented_algs (stored_of r) (r_insts r)) (r_shown r)
       (* a token the model generates is xid.New().String(): the observed one must have that shape *)
       && (match fst (token_step d (r_token r)) with [] => true | _ => token_wf (r_token r) end)
       && agrees d' rest
@@ -102,7 +117,10 @@ Fixpoint agrees (d : disk) (rs : list run) : bool :=
    nothing (C18_failed_starts_change_nothing): the model runs over the completed starts *)
 Definition ok_runs (c : case) : list run := filter (fun r => negb (r_failed r)) (c_runs c).
 Definition lock_ok (rs : list run) : bool := forallb (fun r => Bool.eqb (r_failed r) (r_lock r)) rs.
-Definition model_agrees (c : case) : bool := lock_ok (c_runs c) && agrees (c_disk0 c) (ok_runs c).
+(* every start's spelling denotes the case's one data directory: all starts act on one disk *)
+Definition spell_ok (c : case) : bool :=
+  forallb (fun r => list_eqb N.eqb (resolve (c_home c) (c_cwd c) (r_spell r)) (c_dir c)) (c_runs c).
+Definition model_agrees (c : case) : bool := lock_ok (c_runs c) && spell_ok c && agrees (c_disk0 c) (ok_runs c).
 
 Definition mismatches (cs : list case) : list N :=
   map c_id (filter (fun c => negb (model_agrees c)) cs).
@@ -149,13 +167,14 @@ Fixpoint kv_monotone (a : kv) (rest : list kv) : bool :=
   | b :: r => kv_keeps a b && kv_monotone b r
   end.
 
-(* what clients are shown never changes: [known] collects the first value per item *)
-Fixpoint shown_stable (known : kv) (rs : list run) : bool :=
+(* what clients are shown never changes, per stored identity and per algorithm offered:
+   [known] collects the first value per key *)
+Fixpoint shown_stable (known : list (N * bytes)) (rs : list run) : bool :=
   match rs with
   | [] => true
   | r :: rest =>
-      forallb (fun iv => match kv_get known (fst iv) with Some w => eqb_bytes w (snd iv) | None => true end) (r_seen r)
-      && shown_stable (fold_left (fun k iv => match kv_get k (fst iv) with Some _ => k | None => kv_set k (fst iv) (snd iv) end)
+      forallb (fun iv => match nget known (fst iv) with Some w => eqb_bytes w (snd iv) | None => true end) (r_seen r)
+      && shown_stable (fold_left (fun k iv => match nget k (fst iv) with Some _ => k | None => iv :: k end)
                                  (r_seen r) known) rest
   end.
 
@@ -179,8 +198,9 @@ Definition presents_ok (r : run) : bool :=
     forallb (fun it => match kv_get (d_kv (r_disk r)) it with Some _ => true | None => false end) (svc_items s))
     (r_cfg r)
   && forallb (fun i => match kv_get (r_pub r) (shown_item (i_kind i)) with Some _ => true | None => false end) (r_insts r)
-  && forallb (fun b => match b with [] => false | _ => true end) (r_shown r)
-  && list_eqb eqb_bytes (map (presented_spec (stored_of r)) (r_insts r)) (r_shown r).
+  && forallb (fun l => forallb (fun av => match snd av with [] => false | _ => true end) l) (r_shown r)
+  && list_eqb (fun v l => match nget l 1%N with Some w => eqb_bytes v w | None => false end)
+              (map (presented_spec (stored_of r)) (r_insts r)) (r_shown r).
 
 (* every delivery of every probe event carries the token of the FIRST completed start, and
    the deliveries are those the filters wire *)
@@ -207,7 +227,7 @@ Definition violations (cs : list case) : list (N * N) :=
 (* tags: 1 + 2*[token file present at first] + 4*[items present at first] + 8*[more than two starts]
    + 16*[some start enabled a service] + 32*[some start has two instances sharing one stored identity]
    + 64*[some start has an instance with an operator key] + 128*[some start is attempted while the lock is held]
-   + 256*[some channel is named by two or more filters]; never 0: every case is a restart history *)
+   + 256*[some channel is named by two or more filters] + 512*[some start spells the data directory other than absolutely]; never 0: every case is a restart history *)
 Definition tags (cs : list case) : list (N * N) :=
   map (fun c => (c_id c,
     1 + (match d_token (c_disk0 c) with Some _ => 2 | None => 0 end)
@@ -219,4 +239,6 @@ Definition tags (cs : list case) : list (N * N) :=
       + (if existsb (fun r => existsb has_opkey (r_insts r)) (c_runs c) then 64 else 0)
       + (if existsb r_lock (c_runs c) then 128 else 0)
       + (if existsb (fun r => negb (length (nodup N.eq_dec (flat_map fl_chans (r_filters r)))
-                                    =? length (flat_map fl_chans (r_filters r)))%nat) (c_runs c) then 256 else 0))%N) cs.
+                                    =? length (flat_map fl_chans (r_filters r)))%nat) (c_runs c) then 256 else 0)
+      + (if existsb (fun r => negb (sp_abs (r_spell r)) || existsb (fun x => match x with Up => true | _ => false end) (sp_comps (r_spell r)))
+                    (c_runs c) then 512 else 0))%N) cs.
